@@ -136,6 +136,14 @@ class TermGen:
                 if draw(st.integers(0, 3)) == 0:
                     return self.lit(draw)
                 return self.term(draw, depth - 1)
+            if fname == "kwsum":
+                names = list(draw(st.permutations(["z", "b", "a", "m"])))[:draw(st.integers(2, 3))]
+                return ["call", f, [], [[nm, arg()] for nm in names]]
+            if fname == "sel":
+                mode = E.lit(draw(st.sampled_from(["neg", "dbl", "pos", "abs"])))
+                if draw(st.booleans()):
+                    return ["call", f, [self.term(draw, depth - 1), mode], []]
+                return ["call", f, [self.term(draw, depth - 1)], [["mode", mode]]]
             if fname == "add2":
                 form = draw(st.integers(0, 2))
                 if form == 0:
